@@ -297,9 +297,12 @@ impl AcctCase {
                 "status": format!("{:?}", o.status), "stdout": o.stdout_str().chars().take(140).collect::<String>(),
             }));
 
-            if matches!(o.status, Status::Exit(101) | Status::Signal(_) | Status::Timeout) {
+            if matches!(o.status, Status::Exit(101) | Status::Signal(_)) {
                 let (loc, msg) = o.panic_site().unwrap_or_default();
                 rep.violate("C17", "panic", format!("{}|{}", panic_fingerprint(&loc, &msg), opname), format!("`{}`: {:?} {msg} at {loc}", cmd.argv.join(" "), o.status));
+            }
+            if o.status == Status::Timeout {
+                rep.violate("C17", "hang", format!("{opname}|timeout"), format!("`{}`: still running after the wall-clock limit", cmd.argv.join(" ")));
             }
 
             if self.op == Op::Conflict {
